@@ -94,7 +94,8 @@ OpClauses(e, s, t) ==
     [] e.op = "build" -> Bool2Set(ResultIs(t, r, SeqSet(a.models)), "op.build")
     [] e.op = "cube" -> Bool2Set(CubeC(s, t, a.names, a.vals, r), "op.cube")
     [] e.op = "find_or_add" ->
-         Bool2Set(FindOrAddC(s, t, a.level, a.low, a.high, r), "canon.find_or_add")
+         Bool2Set(a.level \in 0..(Len(s.order) - 1) /\ IsRef(s, a.low) /\ IsRef(s, a.high)
+                  /\ FindOrAddC(s, t, a.level, a.low, a.high, r), "canon.find_or_add")
     [] e.op \in {"incref", "decref"} -> Bool2Set(CountsOnlyC(s, t), "ref.counts_only")
     [] e.op = "gc" -> Bool2Set(CollectFullC(s, t, Ledger(s)), "gc.exact")
                       \* C08: once every Function is gone a collection leaves only the terminal
